@@ -77,6 +77,13 @@ func scQueue(r *Run) {
 			case x < 10:
 				// deadline: in the past, soon, later, or none
 				o = qProgOp{op: qSetDeadline, arg: []int64{-1, 0, int64(1 + r.Intn("op", 30)), int64(50 + r.Intn("op", 200))}[r.Intn("op", 4)]}
+				if o.arg > 0 && k+1 < nOps && r.Intn("op", 3) == 0 {
+					// ... and the deadline is taken back before it is reached
+					progs[g] = append(progs[g], o)
+					desc = append(desc, fmt.Sprintf("g%d:%s(%d)", g, qOpNames[o.op], o.arg))
+					o = qProgOp{op: qSetDeadline, arg: 0}
+					k++
+				}
 			case x < 11:
 				o = qProgOp{op: qCancel}
 			default:
@@ -311,6 +318,50 @@ func queueAfter(r *Run) {
 			return
 		}
 		ops = append(ops, porcupine.Operation{ClientId: e.G % 100, Input: e, Call: e.Call, Output: e, Return: e.Ret})
+	}
+	// A timeout needs a deadline: the model below lets a timeout be reported at any point of the order, so
+	// this is judged on the clock.  A Send/Recv that returned a timeout at instant T is justified by a
+	// SetDeadline call D with a non-zero instant d <= T that was invoked before the call returned and was not
+	// certainly replaced (by a SetDeadline that began after D had returned and had itself returned before
+	// the call was invoked; that one is a candidate of its own).
+	for _, e := range evs {
+		if (e.Op != qSend && e.Op != qRecv) || e.Err != ErrTimeout {
+			continue
+		}
+		r.Obligation(1)
+		justified := false
+		for _, d := range evs {
+			if d.Op != qSetDeadline || d.Arg == 0 || d.Call > e.Ret { // (a call that lost against Close and reported end-of-stream may have taken effect)
+				continue
+			}
+			at := d.At + d.Arg*int64(time.Millisecond)
+			if d.Arg < 0 {
+				at = d.At - int64(time.Second)
+			}
+			if at > e.RetAt {
+				continue
+			}
+			replaced := false
+			for _, d2 := range evs {
+				if d2.Op == qSetDeadline && d2.Err == ErrNone && d2.Call > d.Ret && d2.Ret < e.Call {
+					replaced = true
+					break
+				}
+			}
+			if !replaced {
+				justified = true
+				break
+			}
+		}
+		if !justified {
+			sort.Slice(evs, func(i, j int) bool { return evs[i].Call < evs[j].Call })
+			lines := []string{}
+			for _, x := range evs {
+				lines = append(lines, fmt.Sprintf("[%d,%d] t=%.3f..%.3fms g%d %s(%d) -> out=%d err=%s", x.Call, x.Ret, float64(x.At-evs[0].At)/1e6, float64(x.RetAt-evs[0].At)/1e6, x.G, qOpNames[x.Op], x.Arg, x.Out, []string{"nil", "EOF", "timeout", "cancelled", "other"}[x.Err]))
+			}
+			r.Violate("C17/queue-timeout-without-deadline", "g%d %s returned a timeout although no deadline that was in force during the call had been reached when it returned:\n  %s", e.G, qOpNames[e.Op], strings.Join(lines, "\n  "))
+			return
+		}
 	}
 	r.Obligation(int64(len(ops)))
 	res := porcupine.CheckOperationsTimeout(queueModel, ops, 20*time.Second)
